@@ -140,15 +140,23 @@ func (fv *FV) stmt(e *Env, s ast.Stmt, label string) {
 	case *ast.SendStmt:
 		fv.note("channel send abstracted")
 		fv.expr(e, s.Value)
+		fv.storeComp(e, chanSendsComp, sInt, add(fv.loadComp(e, chanSendsComp, sInt, tNull), intLit(1)), tNull)
 	case *ast.SelectStmt:
 		fv.note("select statement abstracted: all assigned variables and heap havocked")
+		sendsBefore := fv.loadComp(e, chanSendsComp, sInt, tNull)
 		fv.havocAssigned(e, s)
 		fv.havocAll(e)
+		fv.storeComp(e, chanSendsComp, sInt, sendsBefore, tNull)
 		// explore each clause body
 		var outs []*Env
 		for _, c := range s.Body.List {
 			cc := c.(*ast.CommClause)
 			b := fv.withCond(e, fv.s.freshConst("select", sBool))
+			if snd, isSend := cc.Comm.(*ast.SendStmt); isSend {
+				// the clause is taken exactly when its send happened
+				fv.expr(b, snd.Value)
+				fv.storeComp(b, chanSendsComp, sInt, add(sendsBefore, intLit(1)), tNull)
+			}
 			fv.frames = append(fv.frames, &jumpFrame{label: label})
 			fv.block(b, cc.Body)
 			fr := fv.frames[len(fv.frames)-1]
